@@ -489,3 +489,12 @@ def _position_group(kind):
 
 for _k in ('vacancy', 'substitutional', 'dumbbell', 'interstitial'):
     _position_group(_k)
+
+# ----------------------------------------------------------------------------
+# callee contracts this property's proofs ASSUME are part of this check (modular verification carries the property only if the assumed contract is itself
+# discharged on the same tree): the groups of the property that establishes them run here as well, reported under this property when they fail.
+# selection by position goes through System.dvect; System.py is one of this property's files
+from . import c02 as _c02
+for _g in _c02.GROUPS:
+    if _g.name in ('System.dvect_dmag',):
+        GROUPS.append(_g)
